@@ -1,4 +1,7 @@
 -- root of the library: everything `lake build` (setup) compiles
 import PkgsrcVerif.Props.C01
+import PkgsrcVerif.Props.C02
 import PkgsrcVerif.Props.C03
+import PkgsrcVerif.Props.C18
+import PkgsrcVerif.Props.C19
 import PkgsrcVerif.Driver.Pat
